@@ -48,7 +48,9 @@ def cancellation_handlers(an: Analysis, functions=None) -> list[tuple[FunctionIn
 def swallowing(an: Analysis, fi: FunctionInfo, h: ast.ExceptHandler) -> list[tuple[str, object, list]]:
     g = an.cfg(fi)
     bad = []
-    for kind, node, path in classify_handler(g, h):
+    from ..kinds import classify_handler_for
+
+    for kind, node, path in classify_handler_for(g, h, "CancelledError"):
         if kind in ("reraise-same", "raise-from-cleanup"):
             continue
         if kind == "swallow" and forwards_bound(h):
